@@ -229,7 +229,7 @@ def gen_cases(rng, tier):
         if i % 4 == 3:
             feats |= {"session-ddl"}
         out.append(gen_case(rng, feats))
-    return out
+    return [G.tag_key_reuse(c) for c in out]
 
 
 class C03(Spec):
